@@ -467,7 +467,27 @@ def one_call_table(ctx, rule, deep=False):
                                                  'textarea:-soup-contains(note), textarea:placeholder-shown', ':-soup-contains(note)']),
              ('several top-level elements', 'html', multi, [':dir(ltr)', 'p:dir(ltr)', ':root', ':lang(fr)', 'p', ':first-child', ':last-child', 'p:nth-child(1)', ':empty',
                                                             ':not(:dir(rtl))', 'section :dir(ltr)', ':only-child', 'div ~ p', 'div + section', ':nth-last-child(1)'])]
+    ns_f = {'svg': SVG_NS, 'h': XHTML}
+    radios = [('html', {}, [('body', {}, [('form', {'id': 'f'}, [
+        ('input', {'type': 'radio', 'name': 'size', 'id': 's1'}, []), ('input', {'type': 'radio', 'name': 'colour', 'id': 'c1'}, []),
+        ('input', {'type': 'radio', 'name': 'size', 'id': 's2', 'checked': ''}, []), ('input', {'type': 'radio', 'name': 'colour', 'id': 'c2', 'checked': ''}, []),
+        ('input', {'type': 'radio', 'name': 'shape', 'id': 'h1'}, [])])])])]
+    framed = [('html', {}, [('body', {}, [('div', {'id': 'd'}, [
+        ('p', {'id': 'p'}, ['t']), ('iframe', {'id': 'fr'}, [('html', {}, [('body', {}, [('input', {'type': 'checkbox', 'checked': '', 'id': 'ic'}, []), ('a', {'href': 'u', 'id': 'ia'}, ['l']),
+                                                                                          ('p', {'id': 'ip'}, [])])])]),
+        ('input', {'type': 'checkbox', 'checked': '', 'id': 'oc'}, []), ('a', {'href': 'v', 'id': 'oa'}, ['m'])])])])]
+    cases += [('form tree', 'html', STATE_TREE, ['body:-soup-contains(zzz), textarea:placeholder-shown', 'textarea:placeholder-shown, body:-soup-contains(zzz)', ':lang(es), :root',
+                                                 'p:lang(pt), :root', ':root, :lang(es)', ':lang(pt), :dir(ltr)', 'form:-soup-contains(go), textarea:placeholder-shown']),
+              ('reference tree', 'html', TREE, ['li:nth-child(2 of .x), li:nth-child(2 of .z)', 'li:nth-child(1 of .z):nth-last-child(2 of li)', 'li:nth-child(1 of .x), li:nth-last-child(1 of :not(.x))',
+                                                ':nth-child(1 of p), :nth-child(1 of .x)', 'p:nth-of-type(2), p:nth-child(2 of p)', ':has(> li:nth-child(1 of .z)), li:nth-child(1 of .x)']),
+              ('HTML tree with SVG and MathML subtrees', 'html5', FOREIGN_TREE, ['p:dir(ltr)', 'p:dir(rtl)', 'p:dir(ltr), p:dir(rtl)', 'p:dir(rtl), p:dir(ltr)', 'p:is(:dir(rtl), :dir(ltr))',
+                                                                                   '*|p:lang(en), svg|circle', '*|p:lang(en), svg|*', '*|p:lang(en), *|a:any-link', 'div:lang(en), h|a',
+                                                                                   ':is(*|p:lang(en), svg|a)', '*|*:dir(ltr)', ':checked, svg|*', 'svg|* :checked', 'div :checked, svg|a']),
+              ('three interleaved radio groups', 'html', radios, [':indeterminate', 'input:not(:indeterminate)', ':checked, :indeterminate', '[name=shape]:indeterminate, [name=size]:indeterminate']),
+              ('controls inside and outside an iframe', 'html', framed, ['div :checked', 'div :link', 'div a:any-link, div input:checked', ':is(div :checked)', 'body :enabled', 'div :is(:checked, p)',
+                                                                        'div p, div :checked', ':checked, div p', 'div > :checked, div a', 'body :checked, body p'])]
     docs, reqs, keys, meta = {}, [], [], {}
+    seen_parts = set()
     for ci, (desc, kind, spec, sels) in enumerate(cases):
         doc, order, L = make_doc(spec, kind)
         dk = f'd{ci}'
@@ -475,11 +495,19 @@ def one_call_table(ctx, rule, deep=False):
         idx = {id(n_): i for i, n_ in enumerate(order)}
         els = [idx[id(e)] for e in elements(order)]
         meta[dk] = (desc, kind, order, els, sels)
+        kw_ = (('namespaces', ns_f),)
         for s_ in sels:
-            reqs.append((dk, 'select', s_, None, ()))
+            if '(' not in s_.replace(':dir(ltr)', '').replace(':dir(rtl)', '').replace(':lang(en)', '').replace(':lang(es)', '').replace(':lang(pt)', '') and ', ' in s_:
+                # a list without nested lists: each alternative asked in a query of its own as well
+                for part in s_.split(', '):
+                    if (dk, part, 'select') not in seen_parts:
+                        seen_parts.add((dk, part, 'select'))
+                        reqs.append((dk, 'select', part, None, kw_))
+                        keys.append((dk, part, 'part'))
+            reqs.append((dk, 'select', s_, None, kw_))
             keys.append((dk, s_, 'select'))
             for e in els:
-                reqs.append((dk, 'match', s_, e, ()))
+                reqs.append((dk, 'match', s_, e, kw_))
                 keys.append((dk, s_, e))
     res = dict(zip(keys, batch_api(ctx, docs, reqs)))
     bad = None
@@ -490,12 +518,22 @@ def one_call_table(ctx, rule, deep=False):
             odd = [res[(dk, s_, e)] for e in els if res[(dk, s_, e)][0] != 'ok']
             ok = sel == ('ok', per) and not odd
             rule.instance({'document': f'{desc} ({kind})', 'selector': s_, 'select_equals_per_element_match': ok}, key=f'one-call|{dk}|{s_}', sample_cap=4)
+            show = lambda ixs: [(order[i].get('attrs').get('id') or label(order[i])) for i in ixs]      # noqa: E731
             if not ok and bad is None:
-                show = lambda ixs: [(order[i].get('attrs').get('id') or label(order[i])) for i in ixs]      # noqa: E731
                 bad = (desc, kind, s_, show(sel[1]) if sel[0] == 'ok' else f'raises {sel[1]}', show(per), odd[:1])
+            parts = [res.get((dk, part, 'part')) for part in s_.split(', ')] if ', ' in s_ else []
+            if parts and all(p_ is not None and p_[0] == 'ok' for p_ in parts) and sel[0] == 'ok' and bad is None:
+                union = sorted(set().union(*[set(p_[1]) for p_ in parts]))
+                if sel[1] != union:
+                    bad = (desc, kind, s_, show(sel[1]), show(union), 'union')
     rule.obligation(bad is None)
     if bad is not None:
         desc, kind, s_, sel, per, odd = bad
+        if odd == 'union':
+            rule.violation(f'one call `{s_}` ({desc}, {kind})', 'soupsieve/css_match.py (per-call memos)',
+                           f'select({s_!r}) on the {desc} ({kind}) gives {sel}; its alternatives, each in a query of its own, select {per} together: within '
+                           f'one call the answer to one alternative depends on the other having been evaluated')
+            return
         rule.violation(f'one call `{s_}` ({desc}, {kind})', 'soupsieve/css_match.py (CSSMatch.__init__ / per-call memos)',
                        f'select({s_!r}) on the {desc} ({kind}) gives {sel}; asking match() about each element alone accepts {per}'
                        + (f' (match raises: {odd})' if odd else '') + ': the answer for an element depends on what the call evaluated before it, or on where the call started')
@@ -681,12 +719,16 @@ def case_rules_table(ctx, rule):
     # elements embedded in an XML document that is not XHTML never match the HTML-only pseudo-classes, whatever the entry point
     XH = 'http://www.w3.org/1999/xhtml'
     doc, order, L = make_doc([('feed', {'_label': 'root'}, [('entry', {}, [
-        ('div', {'_ns': XH, '_label': 'xdiv'}, [('input', {'_ns': XH, 'type': 'checkbox', 'checked': '', '_label': 'xbox'}, []),
+        ('div', {'_ns': XH, '_label': 'xdiv', 'dir': 'ltr'}, [('input', {'_ns': XH, 'type': 'checkbox', 'checked': '', '_label': 'xbox'}, []),
                                                ('a', {'_ns': XH, 'href': 'u', '_label': 'xlink'}, [])])])])], 'xml')
     for fn, s, target, want in (('match', ':checked', L['xbox'], False), ('match', ':link', L['xlink'], False), ('match', ':enabled', L['xbox'], False),
                                 ('select', ':checked', L['xdiv'], []), ('select', ':any-link', L['xdiv'], []), ('select', ':checked', doc, []),
                                 ('closest', ':root:dir(ltr), div:dir(ltr)', L['xbox'], None), ('filter', ':required, :optional, :link', L['xdiv'], []),
-                                ('select', 'input', L['xdiv'], ['<xbox>']), ('match', 'input[type=checkbox]', L['xbox'], True)):
+                                ('select', 'input', L['xdiv'], ['<xbox>']), ('match', 'input[type=checkbox]', L['xbox'], True),
+                                # an explicit dir attribute on an XHTML element of a document that is not XHTML
+                                ('match', ':dir(ltr)', L['xdiv'], False), ('select', ':dir(ltr)', doc, []), ('select', '*:dir(ltr), *:dir(rtl)', doc, []),
+                                ('match', ':defined', L['xdiv'], False), ('select', ':defined', doc, []), ('closest', ':dir(ltr)', L['xbox'], None),
+                                ('filter', ':dir(ltr), :defined', L['xdiv'], [])):
         st, got = api(ctx, fn, s, target)
         n += 1
         g = ([label(x) for x in got] if isinstance(got, list) else (label(got) if isinstance(got, Obj) else got)) if st == 'ok' else f'raises {got}'
